@@ -68,7 +68,7 @@ func (md *DIBasicType) LLString() string {
 		fields = append(fields, field)
 	}
 	if md.Encoding != 0 {
-		field := fmt.Sprintf("encoding: %s", md.Encoding)
+		field := fmt.Sprintf("encoding: %s", enumString(md.Encoding))
 		fields = append(fields, field)
 	}
 	if md.Flags != 0 {
@@ -212,7 +212,7 @@ func (md *DICompileUnit) LLString() string {
 		buf.WriteString("distinct ")
 	}
 	var fields []string
-	field := fmt.Sprintf("language: %s", md.Language)
+	field := fmt.Sprintf("language: %s", enumString(md.Language))
 	fields = append(fields, field)
 	field = fmt.Sprintf("file: %s", md.File)
 	fields = append(fields, field)
@@ -400,7 +400,7 @@ func (md *DICompositeType) LLString() string {
 		fields = append(fields, field)
 	}
 	if md.RuntimeLang != 0 {
-		field := fmt.Sprintf("runtimeLang: %s", md.RuntimeLang)
+		field := fmt.Sprintf("runtimeLang: %s", enumString(md.RuntimeLang))
 		fields = append(fields, field)
 	}
 	if md.VtableHolder != nil {
@@ -1754,7 +1754,7 @@ func (md *DIStringType) LLString() string {
 		fields = append(fields, field)
 	}
 	if md.Encoding != 0 {
-		field := fmt.Sprintf("encoding: %s", md.Encoding)
+		field := fmt.Sprintf("encoding: %s", enumString(md.Encoding))
 		fields = append(fields, field)
 	}
 	fmt.Fprintf(buf, "!DIStringType(%s)", strings.Join(fields, ", "))
@@ -2064,7 +2064,7 @@ func (md *DISubroutineType) LLString() string {
 		fields = append(fields, field)
 	}
 	if md.CC != 0 {
-		field := fmt.Sprintf("cc: %s", md.CC)
+		field := fmt.Sprintf("cc: %s", enumString(md.CC))
 		fields = append(fields, field)
 	}
 	field := fmt.Sprintf("types: %s", md.Types)
